@@ -124,7 +124,7 @@ mutual
                 have hlen : b.needs ≤ args.length := by
                   cases hv : fo.varArgs <;> simp [hv] at h1 h2 <;> omega
                 refine .ite (vecBody_total_core b args hw hargs hlen chunk c hc hne) ?_
-                exact .of_total (forPairs_total (fun kv => rowBody_total b args kv hw hlen) chunk) c
+                exact rowWiseNoCtx_totalAt (fun kv => rowBody_total b args kv hw hlen) chunk c
     | .binop p op l r, hw, hok => by
       have hl : l.vecOk = true := by simp [Expr.vecOk] at hok; exact hok.1.1
       have hr : r.vecOk = true := by simp [Expr.vecOk] at hok; exact hok.1.2
@@ -225,13 +225,13 @@ mutual
       Expr.vecOkList args = true → b.needs ≤ args.length → ∀ (chunk : List Pair) (c : Ctx), c.enable = false →
         (c.present = true → chunk ≠ []) → TotalAt (vecBody b args chunk) c
     | .join, args, hw, _, hn => fun chunk c _ _ => by
-      rw [vecBody]; exact .of_total (forPairs_total (fun kv => rowBody_total .join args kv hw hn) chunk) c
+      rw [vecBody]; exact rowWiseNoCtx_totalAt (fun kv => rowBody_total .join args kv hw hn) chunk c
     | .toList, args, hw, _, hn => fun chunk c _ _ => by
-      rw [vecBody]; exact .of_total (forPairs_total (fun kv => rowBody_total .toList args kv hw hn) chunk) c
+      rw [vecBody]; exact rowWiseNoCtx_totalAt (fun kv => rowBody_total .toList args kv hw hn) chunk c
     | .intList, args, hw, _, hn => fun chunk c _ _ => by
-      rw [vecBody]; exact .of_total (forPairs_total (fun kv => rowBody_total .intList args kv hw hn) chunk) c
+      rw [vecBody]; exact rowWiseNoCtx_totalAt (fun kv => rowBody_total .intList args kv hw hn) chunk c
     | .floatList, args, hw, _, hn => fun chunk c _ _ => by
-      rw [vecBody]; exact .of_total (forPairs_total (fun kv => rowBody_total .floatList args kv hw hn) chunk) c
+      rw [vecBody]; exact rowWiseNoCtx_totalAt (fun kv => rowBody_total .floatList args kv hw hn) chunk c
     | .lower, a0 :: _, hw, hok, _ => by
       simp [Expr.wfList] at hw; simp [Expr.vecOkList] at hok
       exact unary_body_total rfl hok.1 (execBatch_total_core a0 hw.1 hok.1)
